@@ -617,6 +617,8 @@ func publish(c *core.Ctx, n int) *world {
 			l.ValidityURL = prev.ValidityURL
 			if l.Version == "1b3" {
 				l.Method, l.ReqHeaders = "GET", nil
+			} else if l.Method != "GET" && l.Method != "HEAD" {
+				l.Method = "GET" // (drawn for a 1b3 object, where the method is not part of the exchange)
 			}
 			l.Date = prev.Expires + c.I64("sameURL.gap", 1, 1000)
 			l.Expires = l.Date + 3600
